@@ -205,7 +205,8 @@ Definition db_get (k : str) (db : list entry) : option entry := find (fun e => k
 (* Entry._find_field (513-534): own fields, then the persons of that role joined by " and ",
    then the cross-referenced entry (not through an entry already visited; bib_data None, a missing
    crossref field or a missing target are all KeyError).  None = KeyError.
-   fuel: the chain visits each entry at most once, |db|+1 suffices. *)
+   fuel: the entry itself (which need not be in the database), then pairwise different database
+   entries, then one call that finds its entry already visited: |db|+2 suffices (Proofs: find_field_fuel). *)
 Fixpoint find_field (fuel : nat) (db : option (list entry)) (e : entry) (name : str) (visited : list str)
   : option (option str) :=
   match fuel with
@@ -345,9 +346,11 @@ Definition format_name (tbl : dectable) (ns : nstyle) (abbr : bool) (p : person)
        VT (np comma_space false abbr (fi ++ mi))])
   end.
 
+Definition ff_fuel (db : option (list entry)) : nat := S (S (match db with Some d => length d | None => 0 end)).
+
 (* field (template.py:256-272) *)
 Definition eval_field (c : ctx) (name : str) (apply : afunc) (raw : bool) : tres tval :=
-  match find_field (S (match c_db c with Some d => length d | None => 0 end)) (c_db c) (c_entry c) name [] with
+  match find_field (ff_fuel (c_db c)) (c_db c) (c_entry c) name [] with
   | None => TFuel
   | Some None => TMissing name (e_key (c_entry c))
   | Some (Some v) =>
